@@ -34,7 +34,7 @@ SplitWordAt(s, wd, ptset) ==
                       b |-> IF k <= n THEN e ELSE wd.b,
                       pen |-> IF k <= n THEN (IF HasDev("split_penalty_always") THEN 1
                                               ELSE IF s[e - 1] = HY THEN 0 ELSE 1)
-                              ELSE wd.pen,
+                              ELSE (IF HasDev("split_drops_input_penalty") THEN 0 ELSE wd.pen),
                       w |-> DW(SubSeq(s, a, e - 1))]
   IN [k \in 1..(n + 1) |-> piece(k)]
 
